@@ -21,7 +21,7 @@ import rustdebug
 LEVEL = "proof"
 CONE = ["Props/C04.v", "Props/C05.v"] + ["Iso/%s" % f for f in sorted(__import__("os").listdir(common.COQ + "/theories/Iso")) if f.endswith(".v")]
 CANON_PREFIX = ("ftyp", "mvhd", "tkhd", "mdhd", "mehd", "tfdt", "elst", "mfhd", "trex", "smhd", "vmhd", "tfhd", "trun", "stts", "ctts", "stss", "stco", "co64",
-                "stsz_var", "stsc", "emsg", "data", "vpcc", "avc1_1_1", "avc1_2_2", "hev1", "vp09", "tx3g", "mvex", "traf", "moof", "stsd", "stbl", "minf", "mdia", "trak")
+                "stsz_var", "stsc", "emsg", "hdlrc", "data", "vpcc", "avc1_1_1", "avc1_2_2", "hev1", "vp09", "tx3g", "mvex", "traf", "moof", "stsd", "stbl", "minf", "mdia", "trak")
 
 
 def canon(val):
@@ -97,6 +97,10 @@ def check(rep):
             t = boxcheck.correspondence(ic, mc)
             if t and t != "skipped":
                 ties.append(("model_vs_impl_%s_%d" % (profile, len(ties)), dict(t, kind="correspondence", case=label, profile=profile, box=plain.hex())))
+            if short.startswith(CANON_PREFIX) and "/child" not in short and ic.get("hdr") == "ok" and ic.get("dec") not in ("ok", None) and "_over" not in short:
+                # (the "_over" cases are stsc tables whose derived first_sample exceeds u32: no sample number can name those samples; the decoder rejects them by design)
+                # "bytes produced by the reference encoder decode to the same field values": they must decode at all
+                fail("reference_rejected", {"what": "the reference rendering of a box is rejected by the decoder (%s)" % ic.get("dec"), "profile": profile, "box": plain.hex()}, label)
             if ic.get("dec") == "ok":
                 stats["decode_ok"] += 1 if profile == "debug" else 0
                 if short.startswith(CANON_PREFIX) and "/child" not in short and ic.get("enc") == "ok":
